@@ -107,6 +107,14 @@ def gen_sum(rng, n, tier):
             tracks.append([[rng.randint(0, W * 2) / 2.0, rng.randint(0, H * 2) / 2.0, (None if rng.random() < 0.2 else float(rng.choice([0, 1, 2, -3, 7, 0.5, 2.25])))] for _ in range(k)])
         tracks[0][0][0] = 0.0; tracks[0][0][1] = 0.0
         tracks[0].append([float(W), float(H), 1.0])       # the bounding box is [0,W] x [0,H]
+        if rng.random() < 0.25:
+            # a nearly stationary receiver straddling a cell border: consecutive fixes some tens of micrometres apart (exact in binary), on either side of it
+            t = rng.choice(tracks); e = rng.choice([2.0 ** -15, 2.0 ** -16])
+            bx = float(rng.randint(1, W - 1)); by = float(rng.randint(1, H - 1))
+            if rng.random() < 0.5:
+                t += [[bx - e, by + 0.25, 3.0], [bx + e, by + 0.25, 5.0], [bx - e, by + 0.25, 7.0]]
+            else:
+                t += [[bx + 0.25, by + e, 3.0], [bx + 0.25, by - e, 5.0]]
         nodata = None
         if rng.random() < 0.2:
             nodata = rng.choice([-999999, -999999.0, 7])
